@@ -102,6 +102,40 @@ def ob_decrypt(L, idlen):
                           "ciphertext %d bytes, identity %d bytes; all bytes and keys" % (L, idlen), body, STUBS)
 
 
+def ob_point_codec():
+    """the C1 codec: Point::to_bytes_be = 04 || x || y of the affine form (canonical values), Point::from_bytes reads x, y from bytes 1..33, 33..65"""
+    def body(stats):
+        c = load_crate(CRATE)
+        FM = uf("SM9_FP_FROM_MONT", B256, B256); TM = uf("SM9_FP_TO_MONT", B256, B256)
+        AFF = uf("SM9_G1_AFFINE", z3.BitVecSort(768), z3.BitVecSort(768))
+        def run(ctx):
+            dom = BV(); ex = Ex(c, dom, ctx)
+            ut = lambda ex_, a: u256_term(dom, ex_.load(a) if isinstance(a, Ref) else a)
+            ex.summaries = {"fp_from_mont": lambda ex_, argv: u256_val(FM(ut(ex_, argv[0]))), "fp_to_mont": lambda ex_, argv: u256_val(TM(ut(ex_, argv[0]))),
+                            "Point::to_affine_point": lambda ex_, argv: unflatten(AFF(flatten(dom, ex_.load(argv[0]), S_POINT)), S_POINT)}
+            P = z3.BitVec("P", 768)
+            enc = ex.run_fn(c.find("Point::to_bytes_be"), [Ref(Cell(unflatten(P, S_POINT), "P"))])
+            b = sym_bytes(dom, "b", 65)
+            dec = ex.run_fn(c.find("Point::from_bytes"), [Ref(Cell(Agg(list(b), name="array"), "b"), (), (0, 65))])
+            return dom, ex, P, enc, b, dec
+        paths = explore(run, max_paths=4)
+        check_all_panics(stats, paths)
+        for ctx, (dom, ex, P, enc, b, dec) in live_paths(paths):
+            hy = ctx.facts + ctx.pc
+            A = AFF(P)
+            want = [z3.BitVecVal(4, 8)] + split_terms(FM(z3.Extract(767, 512, A)), 32) + split_terms(FM(z3.Extract(511, 256, A)), 32)
+            if len(enc.f) != 65:
+                raise Violation("Point::to_bytes_be returns %d bytes" % len(enc.f))
+            discharge(stats, hy, z3.And([dom.term(a) == w for a, w in zip(enc.f, want)]), "to_bytes_be = 04 || x || y of the affine form, canonical 32-byte big-endian values")
+            bt = [dom.term(x) for x in b]
+            one = u256_term(dom, ex.const("SM9_MODP_MONT_ONE"))
+            discharge(stats, hy, z3.And(u256_term(dom, dec.f[0]) == TM(z3.Concat(*bt[1:33])), u256_term(dom, dec.f[1]) == TM(z3.Concat(*bt[33:65])), u256_term(dom, dec.f[2]) == one),
+                      "from_bytes = (mont(be(b[1..33])), mont(be(b[33..65])), mont(1))")
+        return {}
+    return run_obligation("g1_point_codec", ["gm_sm9::points::Point::to_bytes_be", "gm_sm9::points::Point::from_bytes", "gm_sm9::fields::fp::fp_from_bytes"], "all points / all 65-byte strings", body,
+                          ["fp_to_mont, fp_from_mont, to_affine_point -> uninterpreted (C13)"])
+
+
 def ob_kdf(zlen, klen):
     import c05
     return c05.ob_kdf(zlen, klen, crate=CRATE, fname="kdf")
@@ -114,7 +148,7 @@ def run(tier, seed, t0):
     jobs += [(lambda L=L: ob_decrypt(L, 3)) for L in dl]
     jobs += [(lambda k=k: ob_kdf(64, k)) for k in (1, 32, 33, 287, 8161)]
     import c13
-    jobs += [lambda: c13.g1_ob("is_on_curve", 1, c13.chk_on_curve, "is_on_curve")]
+    jobs += [lambda: c13.g1_ob("is_on_curve", 1, c13.chk_on_curve, "is_on_curve"), ob_point_codec]
     res = run_parallel(jobs, nproc=12)
     return finish("C10", tier, seed, "model_checking", res, t0,
                   assumptions=["pairing and group layers uninterpreted (C12/C13), H1 framing in C16; the library derives 287 KDF bytes and slices them, which equals KDF(., |M|+32) by prefix-consistency of the KDF (kdf obligations)",
